@@ -333,7 +333,7 @@ func ZZ_C11_ArrayRewire() {
 		g.read(k, fmt.Sprintf("warm-up read of n%d", k))
 	}
 	n := zz.Bound("STEPS")
-	menu := []int{3, 4, 0}
+	menu := []int{3, 4, 0, 1} // append, remove, read, parameter update (a change behind a freshly wired element)
 	for i := 0; i < n; i++ {
 		g.stepOp(i, menu[zz.Choose(fmt.Sprintf("op%d", i), len(menu))])
 	}
